@@ -9,6 +9,7 @@ at fork time plus its own modifications (process isolation); arguments and
 results cross by pickle; `Array(lock=False)` is genuinely shared.
 """
 import contextlib
+import copy
 import ctypes
 import math
 import pickle
@@ -67,6 +68,16 @@ class SimPool:
         self.queue = []
         self.fork_globals = {m: dict(m.__dict__) for m in sim.modules}
         self.overlay = [{m: {} for m in sim.modules} for _ in range(self.n)]
+        # a forked worker owns a *copy* of every mutable module-level container: in-place updates of a
+        # module-level dict / list / set in one worker are invisible to the parent and to the other workers
+        for w in range(self.n):
+            for m in sim.modules:
+                for k, v in self.fork_globals[m].items():
+                    if isinstance(v, (dict, list, set)) and not k.startswith('__'):
+                        try:
+                            self.overlay[w][m][k] = copy.deepcopy(v)
+                        except Exception:
+                            pass
         self.last_worker = -1
         sim.pools += 1
         sim.ctx.count('pools_created')
